@@ -73,6 +73,10 @@ type Sim struct {
 	stats    map[string]int
 	idNames  map[string]string
 	anonKids map[string]int
+	// Prop is the property the current run is judged for (prefix of keys
+	// reported by the runtime itself); held: guard locks per goroutine.
+	Prop string
+	held map[uint64]map[any]int
 
 	step     int
 	MaxSteps int
@@ -433,6 +437,68 @@ func Lock(site string, try func() bool) {
 		s.Stat("lock_contended")
 		s.park(t, site+":wait", "", true)
 	}
+}
+
+// ---- lock discipline (guards)
+
+// LockG is Lock for a mutex that guards a monitored structure: the runtime
+// remembers that the calling goroutine holds it.
+func LockG(site string, try func() bool, key any) {
+	Lock(site, try)
+	if s := Cur(); s != nil {
+		id := goid()
+		s.mu.Lock()
+		if s.held == nil {
+			s.held = map[uint64]map[any]int{}
+		}
+		if s.held[id] == nil {
+			s.held[id] = map[any]int{}
+		}
+		s.held[id][key]++
+		s.mu.Unlock()
+	}
+}
+
+// UnlockG releases a guard lock.
+func UnlockG(unlock func(), key any) {
+	if s := Cur(); s != nil {
+		id := goid()
+		s.mu.Lock()
+		if m := s.held[id]; m != nil {
+			if m[key]--; m[key] <= 0 {
+				delete(m, key)
+			}
+		}
+		s.mu.Unlock()
+	}
+	unlock()
+}
+
+// AssertHeld is inserted before every statement that touches a guarded
+// structure: the calling goroutine must hold the structure's lock. A missing
+// lock is a data race that a one-task-at-a-time scheduler can never observe
+// through its symptoms, so the cause is checked instead.
+func AssertHeld(name string, key any) {
+	s := Cur()
+	if s == nil {
+		return
+	}
+	id := goid()
+	if id == s.ctrl {
+		return
+	}
+	s.mu.Lock()
+	ok := s.held[id] != nil && s.held[id][key] > 0
+	s.mu.Unlock()
+	if ok {
+		return
+	}
+	who := "~"
+	if t := s.taskOf(id); t != nil {
+		who = t.Name
+	}
+	s.Stat("guard_violation")
+	s.Violate(s.Prop+"/unguarded-access/"+name, "task %s touches %s without holding the lock that guards it (a data race with every other user of the structure)", who, name)
 }
 
 func (s *Sim) park(t *Task, site, res string, spin bool) {
